@@ -1,6 +1,6 @@
 /-
   C16 — helper lemmas: the structural induction that lifts the finite per-operator obligations (`TablesOk`, decided completely
-  over the generated tables in Properties/C16.lean) to expressions of any depth.
+  over the generated tables in Properties/C16.lean) to expressions of any depth and to n-ary nodes with any number of branches.
 -/
 import SqlglotModel.Model.Types
 
@@ -18,14 +18,20 @@ theorem Sm.mem_all (s : Sm) : s ∈ Sm.all := by
   | strLit i => cases i <;> simp [Sm.all]
   | iv d => cases d <;> simp [Sm.all]
 
+theorem Sm.mem_typed {s : Sm} (h : (s != .of .unknown) = true) : s ∈ Sm.typed := by
+  simp only [Sm.typed, List.mem_filter]
+  exact ⟨Sm.mem_all s, h⟩
+
 theorem BinK.mem_all (k : BinK) : k ∈ BinK.all := by cases k <;> simp [BinK.all]
 
 theorem TernK.mem_all (k : TernK) : k ∈ TernK.all := by cases k <;> simp [TernK.all]
 
-theorem UnK.mem_all_of_dom {k : UnK} {a : Sm} {ea : ETy} (h : domUn k a ea = true) : k ∈ UnK.all := by
+theorem NaryK.mem_all (k : NaryK) : k ∈ NaryK.all := by cases k <;> simp [NaryK.all]
+
+theorem UnK.mem_all_of {k : UnK} (h : unKnown k = true) : k ∈ UnK.all := by
   cases k with
   | cast to =>
-    simp only [domUn, List.contains_iff_mem] at h
+    simp only [unKnown, List.contains_iff_mem] at h
     simp only [UnK.all, List.mem_append, List.mem_map]
     exact Or.inr ⟨to, h, rfl⟩
   | _ => simp [UnK.all]
@@ -36,76 +42,266 @@ theorem mem_compat {s : Sm} {e : ETy} (h : Rel s e = true) : e ∈ compat s := b
 
 variable (T : Tables)
 
-theorem unCheck_spec (h : unCheck T = true) (k : UnK) (a : Sm) (ea : ETy)
-    (hr : Rel a ea = true) (hd : domUn k a ea = true) (hne : (T.duckUn k ea != .error) = true) :
-    Rel (.of (annotUn T k a)) (T.duckUn k ea) = true := by
+/-- accepted ⇒ (agrees ⇔ in no family): unary -/
+theorem unCheck_iff (h : unCheck T = true) (k : UnK) (a : Sm) (ea : ETy) (hk : unKnown k = true)
+    (ht : (a != .of .unknown) = true) (hr : Rel a ea = true) (hne : (engUn T k ea != .error) = true) :
+    (famUn k a ea).isNone = Rel (.of (annotUn T k a)) (engUn T k ea) := by
   simp only [unCheck, List.all_eq_true] at h
-  have := h k (UnK.mem_all_of_dom hd) a (Sm.mem_all a) ea (mem_compat hr)
-  simp only [Bool.or_eq_true, Bool.not_eq_true', hd] at this
-  rcases this with (h1 | h2) | h3
-  · cases h1
-  · simp only [beq_iff_eq] at h2; simp [h2] at hne
-  · exact h3
+  have := h k (UnK.mem_all_of hk) a (Sm.mem_typed ht) ea (mem_compat hr)
+  simp only [Bool.or_eq_true, beq_iff_eq] at this
+  rcases this with h1 | h2
+  · simp [h1] at hne
+  · exact h2
 
-theorem binCheck_spec (h : binCheck T = true) (k : BinK) (a b : Sm) (ea eb : ETy)
-    (hra : Rel a ea = true) (hrb : Rel b eb = true) (hd : domBin k a b ea eb = true)
-    (hne : (T.duckBin k ea eb != .error) = true) :
-    Rel (.of (annotBin T k a b)) (T.duckBin k ea eb) = true := by
+theorem binCheck_iff (h : binCheck T = true) (k : BinK) (a b : Sm) (ea eb : ETy)
+    (hta : (a != .of .unknown) = true) (htb : (b != .of .unknown) = true)
+    (hra : Rel a ea = true) (hrb : Rel b eb = true) (hne : (T.duckBin k ea eb != .error) = true) :
+    (famBin k a b ea eb).isNone = Rel (.of (annotBin T k a b)) (T.duckBin k ea eb) := by
   simp only [binCheck, List.all_eq_true] at h
-  have := h k (BinK.mem_all k) a (Sm.mem_all a) b (Sm.mem_all b) ea (mem_compat hra) eb (mem_compat hrb)
-  simp only [Bool.or_eq_true, Bool.not_eq_true', hd] at this
-  rcases this with (h1 | h2) | h3
-  · cases h1
-  · simp only [beq_iff_eq] at h2; simp [h2] at hne
-  · exact h3
+  have := h k (BinK.mem_all k) a (Sm.mem_typed hta) b (Sm.mem_typed htb) ea (mem_compat hra) eb (mem_compat hrb)
+  simp only [Bool.or_eq_true, beq_iff_eq] at this
+  rcases this with h1 | h2
+  · simp [h1] at hne
+  · exact h2
 
-theorem ternCheck_spec (h : ternCheck T = true) (k : TernK) (c a b : Sm) (ea eb : ETy)
-    (hra : Rel a ea = true) (hrb : Rel b eb = true) (hd : domTern k a b = true)
-    (hne : (T.duckTern k ea eb != .error) = true) :
-    Rel (.of (annotTern T k c a b)) (T.duckTern k ea eb) = true := by
+theorem ternCheck_iff (hc : ternCondCheck T = true) (h : ternCheck T = true) (k : TernK) (c a b : Sm) (ea eb : ETy)
+    (hta : (a != .of .unknown) = true) (htb : (b != .of .unknown) = true)
+    (hra : Rel a ea = true) (hrb : Rel b eb = true) (hne : (T.duckTern k ea eb != .error) = true) :
+    (famTern k a b).isNone = Rel (.of (annotTern T k c a b)) (T.duckTern k ea eb) := by
+  simp only [ternCondCheck, List.all_eq_true, beq_iff_eq] at hc
+  rw [hc k (TernK.mem_all k) c (Sm.mem_all c) a (Sm.mem_typed hta) b (Sm.mem_typed htb)]
   simp only [ternCheck, List.all_eq_true] at h
-  have := h k (TernK.mem_all k) c (Sm.mem_all c) a (Sm.mem_all a) b (Sm.mem_all b) ea (mem_compat hra) eb (mem_compat hrb)
-  simp only [Bool.or_eq_true, Bool.not_eq_true', hd] at this
-  rcases this with (h1 | h2) | h3
-  · cases h1
-  · simp only [beq_iff_eq] at h2; simp [h2] at hne
-  · exact h3
+  have := h k (TernK.mem_all k) a (Sm.mem_typed hta) b (Sm.mem_typed htb) ea (mem_compat hra) eb (mem_compat hrb)
+  simp only [Bool.or_eq_true, beq_iff_eq] at this
+  rcases this with h1 | h2
+  · simp [h1] at hne
+  · exact h2
 
-/-- **Induction over expressions.** If the finite obligations hold for the tables, then for every well-formed expression of any
-    depth the annotator's summary of the root and the engine's class describe the same kind of value. -/
-theorem rel_of_tablesOk (h : TablesOk T = true) : ∀ e : TExpr, WF T e = true → Rel (sm T e) (eng T e) = true := by
-  simp only [TablesOk, Bool.and_eq_true] at h
-  obtain ⟨⟨⟨hL, hU⟩, hB⟩, hT⟩ := h
-  simp only [leafCheck, Bool.and_eq_true, List.all_eq_true, beq_iff_eq] at hL
-  obtain ⟨⟨⟨⟨hcol, hlit⟩, hiv⟩, hnull⟩, hbool⟩ := hL
-  intro e
-  induction e with
-  | col t =>
+/-! ### n-ary: the by-args loop against the engine's running join -/
+
+/-- branch summaries and branch engine classes, position by position -/
+def relAll : List Sm → List ETy → Bool
+  | [], [] => true
+  | s :: ss, e :: es => Rel s e && s != .of .unknown && relAll ss es
+  | _, _ => false
+
+theorem byArgsLoop_cons (s : Sm) (ss : List Sm) (acc : Acc) :
+    byArgsLoop T (s :: ss) acc = (byArgsStep T acc s).bind (byArgsLoop T ss) := by
+  simp only [byArgsStep, byArgsLoop]
+  split
+  · rfl
+  · split <;> rfl
+
+theorem Acc.mem_all {acc : Acc} (h : litOk acc = true) : acc ∈ Acc.all := by
+  obtain ⟨l, n⟩ := acc
+  simp only [litOk, List.contains_iff_mem] at h
+  simp only [Acc.all, List.mem_flatMap, List.mem_map]
+  refine ⟨l, h, n, ?_, rfl⟩
+  cases n with
+  | none => simp
+  | some t => simp only [List.mem_cons, List.mem_map]; exact Or.inr ⟨t, Ty.mem_all t, rfl⟩
+
+/-- every in-chain step keeps the invariant; at the end of the list the loop has produced a state related to the fold -/
+theorem naryRun_sound (h : naryCheck T = true) (k : NaryK) :
+    ∀ (ss : List Sm) (es : List ETy) (acc : Acc) (e : ETy),
+      InvN T acc e = true → litOk acc = true → relAll ss es = true → naryRun T k acc e ss es = true →
+      ∃ acc', byArgsLoop T ss acc = some acc' ∧ InvN T acc' (es.foldl (T.duckJoin k) e) = true ∧ litOk acc' = true := by
+  simp only [naryCheck, Bool.and_eq_true] at h
+  obtain ⟨⟨⟨_, _⟩, hstep⟩, _⟩ := h
+  simp only [List.all_eq_true] at hstep
+  intro ss
+  induction ss with
+  | nil =>
+    intro es acc e hI hL hr _
+    cases es with
+    | nil => exact ⟨acc, by simp [byArgsLoop], by simpa using hI, hL⟩
+    | cons _ _ => simp [relAll] at hr
+  | cons s ss ih =>
+    intro es acc e hI hL hr hrun
+    cases es with
+    | nil => simp [relAll] at hr
+    | cons e1 es' =>
+      simp only [relAll, Bool.and_eq_true] at hr
+      obtain ⟨⟨hrs, hts⟩, hrest⟩ := hr
+      simp only [naryRun, Bool.and_eq_true] at hrun
+      obtain ⟨hok, hm⟩ := hrun
+      have hs := hstep k (NaryK.mem_all k) acc (Acc.mem_all hL)
+      cases hacc : accSm T acc with
+      | none => simp [InvN, hacc] at hI
+      | some r =>
+        simp only [hacc, List.all_eq_true] at hs
+        have hre : Rel r e = true := by
+          simp only [InvN, hacc, Bool.and_eq_true] at hI; exact hI.1
+        have hs2 := hs e (mem_compat hre) s (Sm.mem_typed hts) e1 (mem_compat hrs)
+        cases hst : byArgsStep T acc s with
+        | none => simp [hst] at hm
+        | some acc1 =>
+          simp only [hst, Bool.and_eq_true] at hm
+          obtain ⟨hne, hrun'⟩ := hm
+          simp only [hst, hI, hL, hok, Bool.and_self, Bool.not_true, Bool.false_or, Bool.or_eq_true,
+            Bool.and_eq_true, beq_iff_eq] at hs2
+          rcases hs2 with h1 | ⟨hI1, hL1⟩
+          · simp [h1] at hne
+          · obtain ⟨acc', hloop, hI', hL'⟩ := ih es' acc1 (T.duckJoin k e e1) hI1 hL1 hrest hrun'
+            refine ⟨acc', ?_, ?_, hL'⟩
+            · rw [byArgsLoop_cons, hst]; simpa using hloop
+            · simpa [List.foldl] using hI'
+
+theorem annotNary_eq {k : NaryK} {p : Bool} (h : naryPromote T k = some p) (args : List Sm) :
+    annotNary T k args = byArgs T args p := by
+  simp only [naryPromote] at h
+  simp only [annotNary]
+  split at h
+  · rename_i m q hmd
+    split at h
+    · rename_i hb
+      simp only [Option.some.injEq] at h
+      subst h
+      simp [hmd, hb]
+    · cases h
+  · cases h
+
+/-- **n-ary agreement.** Any number of in-chain branches: the by-args result and the engine's folded join agree. -/
+theorem nary_sound (h : naryCheck T = true) (k : NaryK) (ss : List Sm) (es : List ETy)
+    (hr : relAll ss es = true) (hok : naryOk T k ss es = true) :
+    Rel (.of (annotNary T k ss)) (engNary T k es) = true := by
+  have h' := h
+  simp only [naryCheck, Bool.and_eq_true] at h'
+  obtain ⟨⟨⟨hmeta, hinit⟩, _⟩, hfin⟩ := h'
+  simp only [List.all_eq_true] at hmeta hinit hfin
+  have hp := hmeta k (NaryK.mem_all k)
+  cases hpk : naryPromote T k with
+  | none => simp [hpk] at hp
+  | some p =>
+    cases ss with
+    | nil => simp [naryOk] at hok
+    | cons s ss' =>
+      cases es with
+      | nil => simp [naryOk] at hok
+      | cons e es' =>
+        simp only [relAll, Bool.and_eq_true] at hr
+        obtain ⟨⟨hrs, hts⟩, hrest⟩ := hr
+        simp only [naryOk] at hok
+        have hi := hinit s (Sm.mem_typed hts) e (mem_compat hrs)
+        cases hst : byArgsStep T ⟨none, none⟩ s with
+        | none => simp [hst] at hok
+        | some acc0 =>
+          simp only [hst] at hok hi
+          simp only [Bool.and_eq_true] at hi
+          obtain ⟨acc', hloop, hI', hL'⟩ := naryRun_sound T h k ss' es' acc0 e hi.1 hi.2 hrest hok
+          have hA : annotNary T k (s :: ss') = finishTy T p acc' := by
+            rw [annotNary_eq T hpk]
+            simp only [byArgs, byArgsLoop_cons, hst, Option.bind_some, hloop, finishTy]
+          have hfk := hfin k (NaryK.mem_all k) acc' (Acc.mem_all hL')
+          cases hacc : accSm T acc' with
+          | none => simp [InvN, hacc] at hI'
+          | some r =>
+            simp only [hacc, List.all_eq_true] at hfk
+            have hre : Rel r (es'.foldl (T.duckJoin k) e) = true := by
+              simp only [InvN, hacc, Bool.and_eq_true] at hI'; exact hI'.1
+            have := hfk _ (mem_compat hre)
+            simp only [hI', Bool.not_true, Bool.false_or, hpk, Option.getD_some] at this
+            rw [hA]
+            simpa [engNary] using this
+
+/-! ### the induction over expressions -/
+
+variable (S : Schema)
+
+mutual
+/-- **Induction over expressions.** If the finite obligations hold for the tables, then for every well-formed expression of
+    any depth (and n-ary nodes of any width) the annotator's summary of the root and the engine's class describe the same
+    kind of value. -/
+theorem rel_of_tablesOk (h : TablesOk T = true) : ∀ e : TExpr, WF T S e = true → Rel (sm T S e) (eng T S e) = true
+  | .col q n => by
     intro hw
-    simp only [WF, List.contains_iff_mem] at hw
-    simpa [sm, eng] using hcol t hw
-  | intLit => intro _; simp [sm, eng, hlit, Rel, eclassOf, classOf, Sm.ty]
-  | decLit => intro _; simp [sm, eng, hlit, Rel, eclassOf, classOf, Sm.ty]
-  | strLit i => intro _; simp [sm, eng, hlit, Rel]
-  | nullLit => intro _; simpa [sm, eng] using hnull
-  | boolLit => intro _; simpa [sm, eng] using hbool
-  | interval d => intro _; simp [sm, eng, hiv, Rel, eclassOf, classOf, Sm.ty]
-  | un k a ih =>
-    intro hw
-    simp only [WF, Bool.and_eq_true] at hw
-    obtain ⟨⟨⟨hwa, _⟩, hd⟩, hne⟩ := hw
-    simpa [sm, eng] using unCheck_spec T hU k (sm T a) (eng T a) (ih hwa) hd hne
-  | bin k a b iha ihb =>
-    intro hw
-    simp only [WF, Bool.and_eq_true] at hw
-    obtain ⟨⟨⟨⟨hwa, hwb⟩, _⟩, hd⟩, hne⟩ := hw
-    simpa [sm, eng] using binCheck_spec T hB k (sm T a) (sm T b) (eng T a) (eng T b) (iha hwa) (ihb hwb) hd hne
-  | tern k c a b _ iha ihb =>
-    intro hw
+    have hL : leafCheck T = true := by simp only [TablesOk, Bool.and_eq_true] at h; exact h.1.1.1.1.1
+    simp only [leafCheck, Bool.and_eq_true, List.all_eq_true] at hL
     simp only [WF, Bool.and_eq_true, beq_iff_eq] at hw
-    obtain ⟨⟨⟨⟨⟨⟨_, hwa⟩, hwb⟩, _⟩, hc⟩, hd⟩, hne⟩ := hw
-    simpa [sm, eng, hc] using
-      ternCheck_spec T hT k (sm T c) (sm T a) (sm T b) (eng T a) (eng T b) (iha hwa) (ihb hwb) hd hne
+    obtain ⟨hq, hl⟩ := hw
+    subst hq
+    cases hlk : S.lookup n with
+    | none => simp [hlk] at hl
+    | some t =>
+      simp only [hlk, List.contains_iff_mem] at hl
+      simpa [sm, eng, annotCol, hlk] using hL.1.1.1.1 t hl
+  | .intLit => by
+    intro _
+    have hL : leafCheck T = true := by simp only [TablesOk, Bool.and_eq_true] at h; exact h.1.1.1.1.1
+    simp only [leafCheck, Bool.and_eq_true, beq_iff_eq] at hL
+    simp [sm, eng, hL.1.1.1.2, Rel, eclassOf, classOf, Sm.ty]
+  | .decLit => by
+    intro _
+    have hL : leafCheck T = true := by simp only [TablesOk, Bool.and_eq_true] at h; exact h.1.1.1.1.1
+    simp only [leafCheck, Bool.and_eq_true, beq_iff_eq] at hL
+    simp [sm, eng, hL.1.1.1.2, Rel, eclassOf, classOf, Sm.ty]
+  | .strLit i => by
+    intro _
+    have hL : leafCheck T = true := by simp only [TablesOk, Bool.and_eq_true] at h; exact h.1.1.1.1.1
+    simp only [leafCheck, Bool.and_eq_true, beq_iff_eq] at hL
+    simp [sm, eng, hL.1.1.1.2, Rel]
+  | .nullLit => by
+    intro _
+    have hL : leafCheck T = true := by simp only [TablesOk, Bool.and_eq_true] at h; exact h.1.1.1.1.1
+    simp only [leafCheck, Bool.and_eq_true] at hL
+    simpa [sm, eng] using hL.1.2
+  | .boolLit => by
+    intro _
+    have hL : leafCheck T = true := by simp only [TablesOk, Bool.and_eq_true] at h; exact h.1.1.1.1.1
+    simp only [leafCheck, Bool.and_eq_true] at hL
+    simpa [sm, eng] using hL.2
+  | .interval d => by
+    intro _
+    have hL : leafCheck T = true := by simp only [TablesOk, Bool.and_eq_true] at h; exact h.1.1.1.1.1
+    simp only [leafCheck, Bool.and_eq_true, beq_iff_eq] at hL
+    simp [sm, eng, hL.1.1.2, Rel, eclassOf, classOf, Sm.ty]
+  | .un k a => by
+    intro hw
+    have hU : unCheck T = true := by simp only [TablesOk, Bool.and_eq_true] at h; exact h.1.1.1.1.2
+    simp only [WF, Bool.and_eq_true] at hw
+    obtain ⟨⟨⟨⟨⟨hwa, hto⟩, _⟩, hk⟩, hf⟩, hne⟩ := hw
+    simp only [typedOperand, Bool.and_eq_true] at hto
+    have := unCheck_iff T hU k (sm T S a) (eng T S a) hk hto.2 (rel_of_tablesOk h a hwa) hne
+    rw [hf] at this
+    simpa [sm, eng] using this.symm
+  | .bin k a b => by
+    intro hw
+    have hB : binCheck T = true := by simp only [TablesOk, Bool.and_eq_true] at h; exact h.1.1.1.2
+    simp only [WF, Bool.and_eq_true] at hw
+    obtain ⟨⟨⟨⟨hwa, hwb⟩, hta, htb⟩, hf⟩, hne⟩ := hw
+    simp only [typedOperand, Bool.and_eq_true] at hta htb
+    have := binCheck_iff T hB k (sm T S a) (sm T S b) (eng T S a) (eng T S b) hta.2 htb.2
+      (rel_of_tablesOk h a hwa) (rel_of_tablesOk h b hwb) hne
+    rw [hf] at this
+    simpa [sm, eng] using this.symm
+  | .tern k c a b => by
+    intro hw
+    have hC : ternCondCheck T = true := by simp only [TablesOk, Bool.and_eq_true] at h; exact h.1.1.2
+    have hT : ternCheck T = true := by simp only [TablesOk, Bool.and_eq_true] at h; exact h.1.2
+    simp only [WF, Bool.and_eq_true, beq_iff_eq] at hw
+    obtain ⟨⟨⟨⟨⟨⟨_, hwa⟩, hwb⟩, ⟨_, hta⟩, htb⟩, hc⟩, hf⟩, hne⟩ := hw
+    simp only [typedOperand, Bool.and_eq_true] at hta htb
+    have := ternCheck_iff T hC hT k (sm T S c) (sm T S a) (sm T S b) (eng T S a) (eng T S b) hta.2 htb.2
+      (rel_of_tablesOk h a hwa) (rel_of_tablesOk h b hwb) hne
+    rw [hf] at this
+    simpa [sm, eng, hc] using this.symm
+  | .nary k args => by
+    intro hw
+    have hN : naryCheck T = true := by simp only [TablesOk, Bool.and_eq_true] at h; exact h.2
+    simp only [WF, Bool.and_eq_true] at hw
+    obtain ⟨⟨hwa, hok⟩, hty⟩ := hw
+    simpa [sm, eng] using nary_sound T hN k _ _ (relArgs_of_tablesOk h args hwa hty) hok
+theorem relArgs_of_tablesOk (h : TablesOk T = true) :
+    ∀ args : TArgs, WFArgs T S args = true → argsTyped T S args = true →
+      relAll (smArgs T S args) (engArgs T S args) = true
+  | .nil => by intro _ _; simp [smArgs, engArgs, relAll]
+  | .cons e rest => by
+    intro hw ht
+    simp only [WFArgs, Bool.and_eq_true] at hw
+    simp only [argsTyped, typedOperand, Bool.and_eq_true] at ht
+    simp only [smArgs, engArgs, relAll, Bool.and_eq_true]
+    exact ⟨⟨rel_of_tablesOk h e hw.1, ht.1.2⟩, relArgs_of_tablesOk h rest hw.2 ht.2⟩
+end
 
 /-- `Rel` at a non-literal summary is class equality -/
 theorem rel_class {s : Sm} {e : ETy} (h : Rel s e = true) : eclassOf e = some (classOf s.ty) := by
